@@ -75,7 +75,9 @@ func init() {
 	monitorCtors["C09"] = func(st *mon.Stats) mon.Monitor { return mon.NewBlockSigs() }
 	// C10's last clause ("only peers in a round's set can ... have block signatures accepted for it"): the C09
 	// monitor's membership verdict, reported under C10
-	monitorCtors["C10sig"] = func(st *mon.Stats) mon.Monitor { return &relabel{Monitor: mon.NewBlockSigs(), keep: "signer-not-in-round-set", as: "C10"} }
+	monitorCtors["C10sig"] = func(st *mon.Stats) mon.Monitor {
+		return &relabel{Monitor: mon.NewBlockSigs(), keep: "signer-not-in-round-set", as: "C10"}
+	}
 	monitorCtors["C09b1"] = func(st *mon.Stats) mon.Monitor { m := mon.NewBlockSigs(); m.Byz[1] = true; return m }
 	monitorCtors["C09b3"] = func(st *mon.Stats) mon.Monitor { m := mon.NewBlockSigs(); m.Byz[3] = true; return m }
 	sched.CustomActions["BZ"] = func(c *sim.Cluster, a sched.Action) error {
